@@ -26,7 +26,7 @@ func c11Gen(seed uint64, run int, tier string) *Case {
 	r := NewRand(seed)
 	c := &Case{Cfg: map[string]int64{}}
 	genSrvCfg(r, c, tier)
-	c.Cfg["nconn"] = 2 // conn 0: victim, conn 1: bystander
+	c.Cfg["nconn"] = 2                  // conn 0: victim, conn 1: bystander
 	c.Cfg["autorel"] = int64(r.Intn(2)) // parked implementation calls may wake up in the middle of activity
 	c.Cfg["cutmode"] = int64(r.Intn(nCutModes))
 	c.Cfg["cutwhen"] = int64(r.Pick(0, 1, 1, 2)) // 0: at a drawn step, 1: at first quiescence (requests parked), 2: after everything was answered
@@ -449,6 +449,17 @@ func c11Version(x *Ctx) {
 		w8 := p.Write(&Msg{Type: Twalk, Tag: 8, Fid: 0, Newfid: 7, Wname: []string{"c"}})[0]
 		rt.YieldUntil(rt.SiteActor, func() bool { return len(fs.HeldInvs()) > 0 || w8.Reply != nil || p.EOF })
 		s9 := p.Write(&Msg{Type: Tstat, Tag: 9, Fid: 7})[0]
+		if k := r.Intn(4); k < 2 {
+			// a second request that would introduce the same new fid number while the first is still at work
+			// (whatever its answer): every fid the implementation is shown for it is released at the disconnect
+			m := &Msg{Type: Twalk, Tag: 6, Fid: 0, Newfid: 7, Wname: []string{"d"}}
+			if k == 1 {
+				m = &Msg{Type: Tattach, Tag: 6, Fid: 7, Afid: NOFID, Uname: "u1", Nuname: 1}
+			}
+			s6 := p.Write(m)[0]
+			rt.YieldUntil(rt.SiteActor, func() bool { return s6.Reply != nil || w8.Reply != nil || p.EOF })
+			x.Probe("same-new-fid-number-introduced-twice-in-flight")
+		}
 		rt.YieldUntil(rt.SiteActor, func() bool { return (w8.Reply != nil && s9.Reply != nil) || p.EOF })
 		var ms1 []*Msg
 		for i := 0; i < n; i++ {
